@@ -118,20 +118,28 @@ StartNull ==
   /\ UNCHANGED <<depth, bbox, pa, pb, ci, cx, taint, bad>>
 
 \* one call of calc_intersection / calc_union(accumulated zone, operand)
-Combine(op) ==
+Apply(op, m) ==
+  \* (bound over singletons: evaluated once)
+  \E o \in {OperandZone(m)} : \E r \in {CodedOp(op, z, o, Alg)} :
+  \E V \in {ZoneOpViolations(op, z, o, r, U)} : \E D \in {ZoneOpDeviation(op, z, o, r, V)} :
+  /\ z' = r
+  /\ R' = (IF op = "and" THEN R \cap OperandRegion(m) ELSE R \cup OperandRegion(m))
+  /\ taint' = (taint \/ D # {})
+  /\ bad' = (bad \/ (V # {} /\ D = {}))
+
+\* calc_intersection(zone, bounds(d)) in VolumeBuilder::insert_region(Joined{op_and})
+Intersect ==
   /\ Mode = "chain" /\ phase = "chain" /\ depth < MaxDepth
-  /\ \E m \in Moves :
-       \* (bound over singletons: evaluated once)
-       \E o \in {OperandZone(m)} : \E r \in {CodedOp(op, z, o, Alg)} :
-       \E V \in {ZoneOpViolations(op, z, o, r, U)} : \E D \in {ZoneOpDeviation(op, z, o, r, V)} :
-       /\ z' = r
-       /\ R' = (IF op = "and" THEN R \cap OperandRegion(m) ELSE R \cup OperandRegion(m))
-       /\ taint' = (taint \/ D # {})
-       /\ bad' = (bad \/ (V # {} /\ D = {}))
+  /\ \E m \in Moves : Apply("and", m)
   /\ depth' = depth + 1
   /\ UNCHANGED <<phase, bbox, pa, pb, ci, cx>>
-Intersect == Combine("and")
-Union == Combine("or")
+
+\* calc_union(zone, bounds(d)) in VolumeBuilder::insert_region(Joined{op_or})
+Union ==
+  /\ Mode = "chain" /\ phase = "chain" /\ depth < MaxDepth
+  /\ \E m \in Moves : Apply("or", m)
+  /\ depth' = depth + 1
+  /\ UNCHANGED <<phase, bbox, pa, pb, ci, cx>>
 
 \* BoundingZone::negate (VolumeBuilder::insert_region(Negated))
 Negate ==
